@@ -77,6 +77,9 @@ type storeHist struct {
 	// soak mode: oracles evaluated at checkpoints only
 	checkEvery int
 	stepN      int
+	// quiet histories: most events are not followed by any query (queries reorganise stores, e.g. sort and
+	// compact buffers, and would hide state that only unobserved sequences of events reach)
+	quietP float64
 }
 
 func (h *storeHist) name() string {
@@ -179,6 +182,10 @@ func (h *storeHist) smallArg() *mon.MonStore {
 
 func (h *storeHist) check(s *mon.MonStore) {
 	if h.checkEvery > 1 && h.stepN%h.checkEvery != 0 {
+		return
+	}
+	if h.quietP > 0 && h.r.P(h.quietP) {
+		h.c.Count("quiet.events_without_query", 1)
 		return
 	}
 	if h.checked(s.Spec) {
@@ -408,6 +415,14 @@ func runStoreHistory(c *core.Ctx, mainSpec gen.StoreSpec, argSpecs func(r *rng.R
 	c.Logf("%s := new %s   (index window centre %d, far %d)", h.main.Name, mainSpec, h.ig.centre, far)
 	c.SigS(mainSpec.String())
 	c.SigI(h.ig.centre)
+	switch r.Pick(5, 3, 2) {
+	case 1:
+		h.quietP = 0.7
+		c.Count("quiet.histories", 1)
+	case 2:
+		h.quietP = 0.95
+		c.Count("quiet.histories", 1)
+	}
 	h.prefix()
 	n := r.Range(1, 60)
 	if r.P(0.05) {
@@ -425,8 +440,9 @@ func runStoreHistory(c *core.Ctx, mainSpec gen.StoreSpec, argSpecs func(r *rng.R
 	for i := 0; i < n && !c.Failed(); i++ {
 		h.step()
 	}
-	if h.checkEvery > 1 && !c.Failed() {
+	if (h.checkEvery > 1 || h.quietP > 0) && !c.Failed() {
 		h.checkEvery = 1
+		h.quietP = 0
 		for _, p := range h.pool {
 			h.check(p)
 		}
